@@ -491,6 +491,13 @@ func (r *Reconciler) reconcileCommit(ctx context.Context, proposal *configapi.Pr
 		if err := r.updateProposalStatus(ctx, proposal); err != nil {
 			return controller.Result{}, err
 		}
+		// The next proposal may be waiting for this commit; this proposal may have left the COMMITTED
+		// state (its apply phase started) by the time it is reconciled again.
+		if proposal.Status.NextIndex != 0 {
+			return controller.Result{
+				Requeue: controller.NewID(proposalstore.NewID(proposal.TargetID, proposal.Status.NextIndex)),
+			}, nil
+		}
 		return controller.Result{}, nil
 	case configapi.ProposalCommitPhase_COMMITTED:
 		if proposal.Status.NextIndex != 0 {
